@@ -517,18 +517,89 @@ func c03LessTied(x, y cty.Value) bool {
 
 // c03SetHasTie: the set value holds two members that are not Equals and that Less does not order.
 func c03SetHasTie(s cty.Value) bool {
-	tie := false
+	return c03SetTieSig(s) != ""
+}
+
+// c03SigTieCollision: two inequivalent compound members tie in Less because their hash texts
+// coincide although they differ in SHAPE or in a string / bool leaf — something the recorded
+// cause (numbers that agree in 10 significant digits, unknown or capsule leaves) does not explain.
+// Never recorded as a finding: on the unchanged tree the hash text is injective on those parts
+// (strings are %q-quoted, every delimiter is outside the quoted text).
+const c03SigTieCollision = "less-tied-by-colliding-hash-text-of-different-structures"
+
+// c03SetTieSig: "" (no tie), c03SigLessTied (every tie is explained by the recorded cause) or c03SigTieCollision.
+func c03SetTieSig(s cty.Value) string {
+	sig := ""
 	try(func() {
 		ms := s.AsValueSlice()
 		for i := range ms {
 			for j := i + 1; j < len(ms); j++ {
 				if !c03EqualsTrue(ms[i], ms[j]) && c03LessTied(ms[i], ms[j]) {
-					tie = true
+					if ms[i].Type() != cty.Number && !c03TieExplained(ms[i], ms[j]) {
+						sig = c03SigTieCollision
+					} else if sig == "" {
+						sig = c03SigLessTied
+					}
 				}
 			}
 		}
 	})
-	return tie
+	return sig
+}
+
+// c03TieExplained: x and y (one type, equal hash text) have the same shape and agree on every
+// string and bool leaf, so that they can only differ in number leaves (equal to 10 significant
+// digits), unknown / null-vs-null leaves or capsule leaves — the recorded cause of hash ties.
+func c03TieExplained(x, y cty.Value) bool {
+	ok := true
+	try(func() { ok = c03SameShape(x, y) })
+	return ok
+}
+
+func c03SameShape(x, y cty.Value) bool {
+	if x.IsMarked() || y.IsMarked() {
+		x, _ = x.Unmark()
+		y, _ = y.Unmark()
+	}
+	if !x.Type().Equals(y.Type()) || x.IsNull() != y.IsNull() || x.IsKnown() != y.IsKnown() {
+		return false
+	}
+	if x.IsNull() || !x.IsKnown() {
+		return true
+	}
+	t := x.Type()
+	switch {
+	case t == cty.String:
+		return x.AsString() == y.AsString()
+	case t == cty.Bool:
+		return x.True() == y.True()
+	case t == cty.Number || t.IsCapsuleType():
+		return true
+	case t.IsListType() || t.IsTupleType() || t.IsSetType():
+		if x.LengthInt() != y.LengthInt() {
+			return false
+		}
+		a, b := x.AsValueSlice(), y.AsValueSlice()
+		for i := range a {
+			if !c03SameShape(a[i], b[i]) {
+				return false
+			}
+		}
+		return true
+	case t.IsMapType() || t.IsObjectType():
+		a, b := x.AsValueMap(), y.AsValueMap()
+		if len(a) != len(b) {
+			return false
+		}
+		for k, av := range a {
+			bv, ok := b[k]
+			if !ok || !c03SameShape(av, bv) {
+				return false
+			}
+		}
+		return true
+	}
+	return true
 }
 
 // c03Cause walks two values of one type in parallel and names the first reason it
@@ -551,8 +622,8 @@ func c03Cause(a, b cty.Value) (site, sig string) {
 		return "", ""
 	case t.IsSetType():
 		for _, s := range []cty.Value{a, b} {
-			if c03SetHasTie(s) {
-				return c03SiteOrder, c03SigLessTied
+			if sg := c03SetTieSig(s); sg != "" {
+				return c03SiteOrder, sg
 			}
 		}
 		// a cause inside some pair of members (Equals-true numbers that hash
@@ -926,7 +997,9 @@ func c03SetCase(ctx *Ctx, m *c03Mat, in []int, maxPerms int) {
 			continue
 		}
 		site, sig := c03SiteOrder, "unexplained"
-		if c03SetHasTie(b0.s) || c03SetHasTie(b.s) {
+		if s0, s1 := c03SetTieSig(b0.s), c03SetTieSig(b.s); s0 == c03SigTieCollision || s1 == c03SigTieCollision {
+			sig = c03SigTieCollision
+		} else if s0 != "" || s1 != "" {
 			sig = c03SigLessTied
 		} else if st, sg := c03Cause(b0.s, b.s); st != "" {
 			site, sig = st, sg
